@@ -1,0 +1,14 @@
+//go:build !verif
+// +build !verif
+
+package rjson
+
+// verifPoolGet and verifPoolPut are seams for deterministic simulation. Without the verif build tag they do nothing.
+
+func verifPoolGet(_ *ValueReader, x *ValueReader, ok bool) (*ValueReader, bool) {
+	return x, ok
+}
+
+func verifPoolPut(_, _ *ValueReader) bool {
+	return false
+}
